@@ -644,6 +644,26 @@ func init() {
 	add(prod{name: "snd", app: is("string"), tiny: true, mk: func(g *Gen, t Type, env Env2, fuel, pos int) Expr {
 		return call("frt.Snd", g.Gen("int*string", env, fuel-1, PosExpr))
 	}})
+	// generic library functions used bare as a pipe stage, and the same function again at a second
+	// instantiation in the same term (string*int instead of int*string)
+	add(prod{name: "fst-piped", tiny: true, app: is("int"), mk: func(g *Gen, t Type, env Env2, fuel, pos int) Expr {
+		return BinOp{"|>", g.Gen("int*string", env, fuel-1, PosExpr), Var{"frt.Fst"}}
+	}})
+	add(prod{name: "snd-piped", tiny: true, app: is("string"), mk: func(g *Gen, t Type, env Env2, fuel, pos int) Expr {
+		return BinOp{"|>", g.Gen("int*string", env, fuel-1, PosExpr), Var{"frt.Snd"}}
+	}})
+	add(prod{name: "snd-second-instance", tiny: true, app: is("int"), mk: func(g *Gen, t Type, env Env2, fuel, pos int) Expr {
+		f := g.split(fuel-1, 2)
+		return call("frt.Snd", Tuple{[]Expr{g.Gen("string", env, f[0], PosExpr), g.Gen("int", env, f[1], PosExpr)}})
+	}})
+	add(prod{name: "snd-second-instance-piped", tiny: true, app: is("int"), mk: func(g *Gen, t Type, env Env2, fuel, pos int) Expr {
+		f := g.split(fuel-1, 2)
+		return BinOp{"|>", Tuple{[]Expr{g.Gen("string", env, f[0], PosExpr), g.Gen("int", env, f[1], PosExpr)}}, Var{"frt.Snd"}}
+	}})
+	add(prod{name: "fst-second-instance", tiny: true, app: is("string"), mk: func(g *Gen, t Type, env Env2, fuel, pos int) Expr {
+		f := g.split(fuel-1, 2)
+		return call("frt.Fst", Tuple{[]Expr{g.Gen("string", env, f[0], PosExpr), g.Gen("int", env, f[1], PosExpr)}})
+	}})
 	add(prod{name: "pair-generic", rep: true, app: is("int*string"), mk: func(g *Gen, t Type, env Env2, fuel, pos int) Expr {
 		f := g.split(fuel-1, 2)
 		return call("pair", g.Gen("int", env, f[0], PosExpr), g.Gen("string", env, f[1], PosExpr))
